@@ -442,7 +442,10 @@ impl Outcome {
 fn eval(c: &Case) -> Option<Outcome> {
     let req = Request::new(&c.url, &c.source, &c.ty).ok()?;
     implrun::net::register_request(&req, &c.url, &c.source, &c.ty);
-    let mut engine = Engine::from_rules_parametrised(c.rules.iter(), Default::default(), true, c.optimize);
+    // the lines as a caller that split a CRLF file on '\n' hands them over: every other case keeps a
+    // carriage return (or other blanks) at the end of each line; a line is trimmed before it is parsed
+    let fed: Vec<String> = if (c.url.len() + c.rules.len()) % 2 == 0 { c.rules.iter().enumerate().map(|(i, l)| format!("{}{}", l, ["\r", " \r", "\t", "\r\n", ""][i % 5])).collect() } else { c.rules.clone() };
+    let mut engine = Engine::from_rules_parametrised(fed.iter(), Default::default(), true, c.optimize);
     let mut set: BTreeSet<String> = BTreeSet::new();
     let mut steps = vec![];
     for o in c.history() {
